@@ -8,18 +8,25 @@ Open Scope N_scope.
 Theorem C18_canonical_uid : forall u, canon_uid u = canon_spec u.
 Proof. exact canon_uid_spec. Qed.
 
-(* a payment application listed ANYWHERE in the application list (an entry carrying an application id): Bank *)
-Theorem C18_bank_if_listed : forall ixa ixs acc v tlv subs s app, ixs <> ixa ->
+(* the application list: the entries at the top level of the status TLV (tag 0x60) followed by those of the "applications on
+   card" container (tag 0x62) — where the cVEND puts them (since the fix of F16) *)
+Theorem C18_application_list : forall tlv top card,
+  field_of "zvt::packets::tlv::StatusInformation" tlv 96 = Some (VList top) ->
+  field_of "zvt::packets::tlv::StatusInformation" tlv 98 = Some (VSome (VRec [VList card])) ->
+  application_list tlv = top ++ card.
+Proof. exact application_list_spec. Qed.
+
+(* a payment application listed ANYWHERE in it (an entry carrying an application id): Bank *)
+Theorem C18_bank_if_listed : forall ixa ixs acc v tlv s app, ixs <> ixa ->
   field_of "zvt::packets::StatusInformation" v 6 = Some (VSome tlv) ->
-  field_of "zvt::packets::tlv::StatusInformation" tlv 96 = Some (VList subs) ->
-  In s subs -> field_of "zvt::packets::tlv::Subs" s 67 = Some (VSome app) ->
+  In s (application_list tlv) -> field_of "zvt::packets::tlv::Subs" s 67 = Some (VSome app) ->
   h_read_card ixa ixs acc ixs v = (None, Some CBank).
 Proof. exact bank_if_listed. Qed.
 
 (* with any application list the answer is Bank or an error — never a membership card *)
-Theorem C18_listed_never_membership : forall ixa ixs acc v tlv s0 rest, ixs <> ixa ->
+Theorem C18_listed_never_membership : forall ixa ixs acc v tlv, ixs <> ixa ->
   field_of "zvt::packets::StatusInformation" v 6 = Some (VSome tlv) ->
-  field_of "zvt::packets::tlv::StatusInformation" tlv 96 = Some (VList (s0 :: rest)) ->
+  application_list tlv <> nil ->
   h_read_card ixa ixs acc ixs v = (None, Some CBank) \/
   h_read_card ixa ixs acc ixs v = (Some (RErr EUnknownCardType), acc).
 Proof. exact listed_never_membership. Qed.
@@ -27,18 +34,16 @@ Proof. exact listed_never_membership. Qed.
 (* KNOWN FINDING (open, known_findings.json; not repaired — DESIGN 16.2): the full statement "otherwise the UID is reported as
    membership id" is FALSE of the code for a non-empty application list none of whose entries names an application: the call fails
    with "unknown card type" whether or not a UID is reported.  The deviation is exactly this class: *)
-Theorem C18_refuted_for_idless_lists : forall ixa ixs acc v tlv s0 rest, ixs <> ixa ->
+Theorem C18_refuted_for_idless_lists : forall ixa ixs acc v tlv, ixs <> ixa ->
   field_of "zvt::packets::StatusInformation" v 6 = Some (VSome tlv) ->
-  field_of "zvt::packets::tlv::StatusInformation" tlv 96 = Some (VList (s0 :: rest)) ->
-  existsb has_application (s0 :: rest) = false ->
+  application_list tlv <> nil -> existsb has_application (application_list tlv) = false ->
   h_read_card ixa ixs acc ixs v = (Some (RErr EUnknownCardType), acc).
 Proof. exact idless_list_is_unknown_card_type. Qed.
 
-(* no application listed: the UID in canonical form *)
+(* no application entry anywhere: the UID in canonical form *)
 Theorem C18_membership_canonical : forall ixa ixs acc v tlv u, ixs <> ixa ->
   field_of "zvt::packets::StatusInformation" v 6 = Some (VSome tlv) ->
-  (field_of "zvt::packets::tlv::StatusInformation" tlv 96 = Some (VList []) \/
-   field_of "zvt::packets::tlv::StatusInformation" tlv 96 = None) ->
+  application_list tlv = nil ->
   field_of "zvt::packets::tlv::StatusInformation" tlv 76 = Some (VSome (VStr u)) ->
   h_read_card ixa ixs acc ixs v = (None, Some (CMember (canon_spec u))).
 Proof. exact membership_canonical. Qed.
@@ -67,6 +72,17 @@ Theorem C18_read_card_is_the_fold_over_received_replies : forall cfg w id its,
               f_read_card None its.
 Proof. exact read_card_follows_polls. Qed.
 
+(* the reply a real cVEND gave for a girocard (the crate's own trace zvt/data/status_information_read_card.blob: the applications
+   A0000003591010028001 and A0000000043060 under tag 0x62, a UID as well): decoded by the model's decoder and classified by the
+   model's handler it is a bank card (before the fix of F16 it was MembershipCard("08B3C880")) *)
+Definition ex_recorded_reply : list N := [4; 15; 134; 39; 0; 35; 241; 249; 103; 37; 144; 68; 17; 0; 16; 0; 20; 45; 36; 18; 32; 18; 56; 96; 19; 134; 15; 6; 108; 31; 11; 6; 0; 0; 0; 1; 0; 0; 31; 20; 16; 63; 86; 163; 32; 101; 204; 77; 190; 131; 48; 195; 118; 9; 249; 25; 150; 76; 10; 0; 0; 0; 0; 0; 0; 8; 179; 200; 128; 31; 69; 12; 12; 120; 128; 116; 3; 128; 49; 192; 115; 214; 49; 192; 31; 76; 1; 1; 31; 77; 2; 254; 4; 31; 79; 2; 4; 0; 31; 80; 1; 32; 98; 33; 96; 16; 65; 2; 0; 5; 67; 10; 160; 0; 0; 3; 89; 16; 16; 2; 128; 1; 96; 13; 65; 2; 0; 46; 67; 7; 160; 0; 0; 0; 4; 48; 96].
+Example C18_ex_recorded_girocard :
+  match dec_cmd FUEL (cmd_of "zvt::packets::StatusInformation") ex_recorded_reply with
+  | Ok (v, nil) => h_read_card 0 1 None 1 v = (None, Some CBank)
+  | _ => False
+  end.
+Proof. vm_compute. reflexivity. Qed.
+
 Print Assumptions C18_read_card_is_the_fold_over_received_replies.
 Print Assumptions C18_canonical_uid.
 Print Assumptions C18_bank_if_listed.
@@ -84,3 +100,4 @@ Theorem C18_read_card_request : forall cfg w id, w_cur w = Some id -> c_read_car
 Proof. exact read_card_sends_the_configured_timeout. Qed.
 Print Assumptions C18_read_card_request.
 Print Assumptions C18_refuted_for_idless_lists.
+Print Assumptions C18_application_list.
